@@ -1,5 +1,193 @@
-//! PASERK operations and keys — filled in with the model
+//! PASERK operations and keys on the real back ends
+use crate::be::*;
 use crate::exec::R;
-pub fn exec_more(_t: &[&str]) -> R {
-    Err("bad-op".into())
+use crate::exec4::key_of;
+use crate::util::*;
+use crate::{with_kind, with_sealing_kind, with_v};
+use paseto_core::PasetoError;
+use paseto_core::key::Key;
+use paseto_core::paserk::{KeyId, PasswordWrappedKey, PieWrappedKey, SealedKey};
+use paseto_core::version::{Local, PkePublic, PkeSecret, Secret};
+use std::str::FromStr;
+
+fn en(e: PasetoError) -> String {
+    err_name(&e).to_string()
+}
+
+pub fn exec_more(t: &[&str]) -> R {
+    let bad = || "bad-op".to_string();
+    let hx = |i: usize| -> Result<Vec<u8>, String> { t.get(i).and_then(|s| unhex(s)).ok_or_else(bad) };
+    let be = |i: usize| -> Result<Be, String> { t.get(i).and_then(|s| Be::parse(s)).ok_or_else(bad) };
+    let kd = |i: usize| -> Result<Kind, String> { t.get(i).and_then(|s| Kind::parse(s)).ok_or_else(bad) };
+    let st = |i: usize| -> Result<String, String> { String::from_utf8(hx(i)?).map_err(|_| bad()) };
+    match t[0] {
+        "pie.open" | "pie.re" => {
+            let (b, k, wk, s) = (be(1)?, kd(2)?, hx(3)?, st(4)?);
+            let re = t[0] == "pie.re";
+            with_v!(b, V => with_sealing_kind!(k, K => {
+                let wk = key_of::<V, Local>(&wk).map_err(en)?;
+                let w = PieWrappedKey::<V, K>::from_str(&s).map_err(en)?;
+                let key = w.unwrap(&wk).map_err(en)?;
+                if re { Ok("same=1".to_string()) } else { Ok(hex(key.expose_key().as_raw_bytes())) }
+            }, else Err(bad())))
+        }
+        "pw.open" | "pw.re" => {
+            let (b, k, pass, s) = (be(1)?, kd(2)?, hx(3)?, st(4)?);
+            let re = t[0] == "pw.re";
+            with_v!(b, V => with_sealing_kind!(k, K => {
+                let w = PasswordWrappedKey::<V, K>::from_str(&s).map_err(en)?;
+                let key = w.unwrap(&pass).map_err(en)?;
+                if re { Ok("same=1".to_string()) } else { Ok(hex(key.expose_key().as_raw_bytes())) }
+            }, else Err(bad())))
+        }
+        "seal.open" => {
+            let (b, sk, s) = (be(1)?, hx(2)?, st(3)?);
+            with_v!(b, V => {
+                let sk = key_of::<V, PkeSecret>(&sk).map_err(en)?;
+                let w = SealedKey::<V>::from_str(&s).map_err(en)?;
+                let key = w.unseal(&sk).map_err(en)?;
+                Ok(hex(key.expose_key().as_raw_bytes()))
+            })
+        }
+        "key.dec" => {
+            let (b, k, raw) = (be(1)?, kd(2)?, hx(3)?);
+            with_v!(b, V => with_kind!(k, K => {
+                let key = key_of::<V, K>(&raw).map_err(en)?;
+                Ok(hex(key.expose_key().as_raw_bytes()))
+            }))
+        }
+        "key.pub" => {
+            let (b, raw) = (be(1)?, hx(2)?);
+            with_v!(b, V => {
+                let key = key_of::<V, Secret>(&raw).map_err(en)?;
+                Ok(hex(key.public_key().expose_key().as_raw_bytes()))
+            })
+        }
+        "id" => {
+            let (b, k, raw) = (be(1)?, kd(2)?, hx(3)?);
+            with_v!(b, V => with_kind!(k, K => {
+                let key = key_of::<V, K>(&raw).map_err(en)?;
+                Ok(hex(key.id().to_string().as_bytes()))
+            }))
+        }
+        // ---------------- oracle-only operations (library's own randomness)
+        "o.pie.rt" => {
+            let (b, k, wk, key) = (be(1)?, kd(2)?, hx(3)?, hx(4)?);
+            with_v!(b, V => with_sealing_kind!(k, K => {
+                let wk = key_of::<V, Local>(&wk).map_err(en)?;
+                let key0 = key_of::<V, K>(&key).map_err(|e| format!("key-{}", en(e)))?;
+                let canon = key0.expose_key().as_raw_bytes().to_vec();
+                let w = key0.wrap_pie(&wk).map_err(|e| format!("wrap-{}", en(e)))?;
+                let s = w.to_string();
+                let back = PieWrappedKey::<V, K>::from_str(&s).map_err(|e| format!("parse-{}", en(e)))?.unwrap(&wk).map_err(|e| format!("unwrap-{} blob={}", en(e), hex(s.as_bytes())))?;
+                let ok = back.expose_key().as_raw_bytes() == &canon[..];
+                let body = s.rsplit('.').next().unwrap_or("");
+                Ok(format!("rt={} len={} keylen={} blob={}", ok as u8, crate::gen_tok::unb64(body).len(), canon.len(), hex(s.as_bytes())))
+            }, else Err(bad())))
+        }
+        // params: "default" or a PBKW string whose parameters are reused (Params has no public constructor)
+        "o.pw.rt" => {
+            let (b, k, pass, key, pstr) = (be(1)?, kd(2)?, hx(3)?, hx(4)?, *t.get(5).ok_or_else(bad)?);
+            with_v!(b, V => with_sealing_kind!(k, K => {
+                let key0 = key_of::<V, K>(&key).map_err(|e| format!("key-{}", en(e)))?;
+                let canon = key0.expose_key().as_raw_bytes().to_vec();
+                let w = if pstr == "default" {
+                    key0.password_wrap(&pass)
+                } else {
+                    let donor = String::from_utf8(unhex(pstr).ok_or_else(bad)?).map_err(|_| bad())?;
+                    let params = PasswordWrappedKey::<V, K>::from_str(&donor).map_err(|e| format!("donor-{}", en(e)))?.params().map_err(|e| format!("params-{}", en(e)))?;
+                    key0.password_wrap_with_params(&pass, &params)
+                }.map_err(|e| format!("wrap-{}", en(e)))?;
+                let s = w.to_string();
+                let back = PasswordWrappedKey::<V, K>::from_str(&s).map_err(|e| format!("parse-{}", en(e)))?.unwrap(&pass).map_err(|e| format!("unwrap-{} blob={}", en(e), hex(s.as_bytes())))?;
+                let ok = back.expose_key().as_raw_bytes() == &canon[..];
+                let body = s.rsplit('.').next().unwrap_or("");
+                Ok(format!("rt={} len={} keylen={} blob={}", ok as u8, crate::gen_tok::unb64(body).len(), canon.len(), hex(s.as_bytes())))
+            }, else Err(bad())))
+        }
+        "o.seal.rt" => {
+            let (b, sk, pk, key) = (be(1)?, hx(2)?, hx(3)?, hx(4)?);
+            with_v!(b, V => {
+                let sk = key_of::<V, PkeSecret>(&sk).map_err(|e| format!("sk-{}", en(e)))?;
+                let pk = key_of::<V, PkePublic>(&pk).map_err(|e| format!("pk-{}", en(e)))?;
+                let key0 = key_of::<V, Local>(&key).map_err(|e| format!("key-{}", en(e)))?;
+                let s = key0.seal(&pk).map_err(|e| format!("seal-{}", en(e)))?.to_string();
+                let body = s.rsplit('.').next().unwrap_or("");
+                let len = crate::gen_tok::unb64(body).len();
+                let back = SealedKey::<V>::from_str(&s).map_err(|e| format!("parse-{}", en(e)))?.unseal(&sk).map_err(|e| format!("unseal-{} len={} blob={}", en(e), len, hex(s.as_bytes())))?;
+                let ok = back.expose_key().as_raw_bytes() == &key[..];
+                Ok(format!("rt={} len={} blob={}", ok as u8, len, hex(s.as_bytes())))
+            })
+        }
+        // a decoded key behaves like its clone, its re-parse and its PASERK text; ids are stable
+        "o.key" => {
+            let (b, k, raw) = (be(1)?, kd(2)?, hx(3)?);
+            with_v!(b, V => with_kind!(k, K => {
+                let key = match key_of::<V, K>(&raw) { Ok(k) => k, Err(_) => return Ok("rejected".to_string()) };
+                let enc1 = key.expose_key().as_raw_bytes().to_vec();
+                let enc_clone = key.clone().expose_key().as_raw_bytes().to_vec();
+                let text = key.expose_key().to_string();
+                let re: Key<V, K> = text.parse().map_err(|e| format!("reparse-{}", en(e)))?;
+                let enc2 = re.expose_key().as_raw_bytes().to_vec();
+                let again = key_of::<V, K>(&enc1).map_err(|e| format!("redecode-{}", en(e)))?;
+                let enc3 = again.expose_key().as_raw_bytes().to_vec();
+                let ids = key.id().to_string() == re.id().to_string() && key.id().to_string() == key.clone().id().to_string();
+                Ok(format!("idem={} clone={} text={} ids={} len={}", (enc1 == enc3) as u8, (enc1 == enc_clone) as u8, (enc1 == enc2) as u8, ids as u8, enc1.len()))
+            }))
+        }
+        // secret key -> public key: equals the public half of the serialisation (Ed25519) and verifies what the key signs
+        "o.keypair" => {
+            let (b, raw) = (be(1)?, hx(2)?);
+            with_v!(b, V => {
+                use paseto_core::tokens::UnsealedToken;
+                use paseto_core::version::Public;
+                let sk = match key_of::<V, Secret>(&raw) { Ok(k) => k, Err(_) => return Ok("rejected".to_string()) };
+                let pk = sk.public_key();
+                let pkraw = pk.expose_key().as_raw_bytes().to_vec();
+                let enc = sk.expose_key().as_raw_bytes().to_vec();
+                let half = if b.version() == 2 || b.version() == 4 { (enc.len() == 64 && enc[32..] == pkraw[..]) as u8 } else { 1 };
+                let tok = UnsealedToken::<V, Public, Raw>::new(Raw(b"m".to_vec())).sign(&sk).map_err(|e| format!("sign-{}", en(e)))?;
+                let tok2 = UnsealedToken::<V, Public, Raw>::new(Raw(b"m".to_vec())).sign(&sk.clone()).map_err(|e| format!("sign-{}", en(e)))?;
+                let v1 = tok.verify(&pk, &paseto_core::validation::NoValidation::dangerous_no_validation()).is_ok();
+                let v2 = tok2.verify(&pk.clone(), &paseto_core::validation::NoValidation::dangerous_no_validation()).is_ok();
+                Ok(format!("half={} verifies={} clone_verifies={}", half, v1 as u8, v2 as u8))
+            })
+        }
+        // two encodings of the same key (PEM / DER, compressed / uncompressed) give one id
+        "o.id.eq" => {
+            let (b, k, r1, r2) = (be(1)?, kd(2)?, hx(3)?, hx(4)?);
+            with_v!(b, V => with_kind!(k, K => {
+                let a = key_of::<V, K>(&r1).map_err(en)?.id().to_string();
+                let c = key_of::<V, K>(&r2).map_err(en)?.id().to_string();
+                Ok(format!("same={}", (a == c) as u8))
+            }))
+        }
+        // local / secret / public ids of related keys differ
+        "o.id.rel" => {
+            let (b, raw) = (be(1)?, hx(2)?);
+            with_v!(b, V => {
+                let sk = key_of::<V, Secret>(&raw).map_err(en)?;
+                let pk = sk.public_key();
+                let sid = sk.id(); let pid = pk.id();
+                let lid = key_of::<V, Local>(&[7u8; 32]).map_err(en)?.id();
+                let distinct = sid.as_bytes() != pid.as_bytes() && sid.as_bytes() != lid.as_bytes() && pid.as_bytes() != lid.as_bytes();
+                Ok(format!("distinct={}", distinct as u8))
+            })
+        }
+        // Eq / Ord / Hash of KeyId agree with the bytes
+        "o.id.ord" => {
+            let (b, s1, s2) = (be(1)?, st(2)?, st(3)?);
+            with_v!(b, V => {
+                use std::hash::{Hash, Hasher};
+                let a = KeyId::<V, Local>::from_str(&s1).map_err(en)?;
+                let c = KeyId::<V, Local>::from_str(&s2).map_err(en)?;
+                let h = |x: &KeyId<V, Local>| { let mut s = std::collections::hash_map::DefaultHasher::new(); x.hash(&mut s); s.finish() };
+                let hb = |x: &[u8; 33]| { let mut s = std::collections::hash_map::DefaultHasher::new(); x.hash(&mut s); s.finish() };
+                let ok = (a == c) == (a.as_bytes() == c.as_bytes()) && a.cmp(&c) == a.as_bytes().cmp(c.as_bytes()) && a.partial_cmp(&c) == Some(a.cmp(&c))
+                    && h(&a) == hb(a.as_bytes()) && h(&c) == hb(c.as_bytes()) && { let d = a; d == a };
+                Ok(format!("agree={}", ok as u8))
+            })
+        }
+        _ => crate::exec6::exec_more(t),
+    }
 }
